@@ -317,6 +317,8 @@ def main(argv=None):
             if he.get("case") is not None:
                 print("  case:", json.dumps(he["case"])[:1500])
         print("harness errors: %d" % len(harness_errors))
+        for cname, case, v, pth in violations:
+            print("  (also) [%s] %s: %s" % (cname, v["kind"], v["msg"][:300]))
         return 2
     if violations:
         for cname, case, v, p in violations:
